@@ -28,12 +28,18 @@ Es == <<0, 1, 360, 100000>>
 NowOffs(e) == <<0 - FutureSlack - 1, 0 - FutureSlack, 1 - FutureSlack, 0 - 1, 0, 1, e - 1, e, e + 1, 200000>>
 KOffs == <<0 - 100000, 0 - 1, 0, 1, 100000>>
 Hs == <<0, 1, 2, 3, 4, 8, 9, 10, 11, 12, 13, 14, 100>>
-NValid == Len(Es) * 10 * Len(KOffs) * Len(Hs)
-ValidIn(j) ==
-  LET hi == j % Len(Hs)  ki == (j \div Len(Hs)) % Len(KOffs)  ni == (j \div (Len(Hs) * Len(KOffs))) % 10
+\* u: what an attacker put into the unhashed subpacket area (it is not covered by the signature, so nothing in it may
+\* take part in the decision): 0 nothing, 1 a creation time equal to "now", 2 an expiration time of 0 (never), 3 both
+Us == <<0, 1, 2, 3>>
+NValid0 == Len(Es) * 10 * Len(KOffs) * Len(Hs)
+NValid == NValid0 * Len(Us)
+ValidIn(jj) ==
+  LET j == jj % NValid0
+      hi == j % Len(Hs)  ki == (j \div Len(Hs)) % Len(KOffs)  ni == (j \div (Len(Hs) * Len(KOffs))) % 10
       ei == j \div (Len(Hs) * Len(KOffs) * 10)
       e == Es[ei + 1]
-  IN [c |-> Base, e |-> e, k |-> Base + KOffs[ki + 1], now |-> Base + NowOffs(e)[ni + 1], h |-> Hs[hi + 1]]
+  IN [c |-> Base, e |-> e, k |-> Base + KOffs[ki + 1], now |-> Base + NowOffs(e)[ni + 1], h |-> Hs[hi + 1],
+      u |-> Us[(jj \div NValid0) + 1]]
 CaseValid(j) ==
   LET x == ValidIn(j) IN
   [op |-> "valid", i |-> j, in |-> x,
@@ -92,14 +98,14 @@ CaseDocLen(j) ==
               !.doc = IF text THEN TextPat(n, Seed + j) ELSE Pat(n, Seed + j), !.scope = "obj"]
   IN CaseSigOf(j, x)
 
-(* textcanon: all texts over {a, CR, LF} up to length L as originals, the same set as variants *)
-Abc == <<97, 13, 10>>
+(* textcanon: all texts over {a, CR, LF, blank} up to length L as originals, the same set as variants *)
+Abc == <<97, 13, 10, 32>>
 RECURSIVE StrOf(_, _)
-StrOf(len, k) == IF len = 0 THEN <<>> ELSE <<Abc[(k % 3) + 1]>> \o StrOf(len - 1, k \div 3)
-Pow3(l) == 3 ^ l
-StrIdx(k) == LET l == CHOOSE l \in 0..8 : (Pow3(l) - 1) \div 2 <= k /\ k < (Pow3(l + 1) - 1) \div 2
-             IN StrOf(l, k - (Pow3(l) - 1) \div 2)
-NStr(L) == (Pow3(L + 1) - 1) \div 2
+StrOf(len, k) == IF len = 0 THEN <<>> ELSE <<Abc[(k % 4) + 1]>> \o StrOf(len - 1, k \div 4)
+Pow4(l) == 4 ^ l
+StrIdx(k) == LET l == CHOOSE l \in 0..8 : (Pow4(l) - 1) \div 3 <= k /\ k < (Pow4(l + 1) - 1) \div 3
+             IN StrOf(l, k - (Pow4(l) - 1) \div 3)
+NStr(L) == (Pow4(L + 1) - 1) \div 3
 CaseTextCanon(j, L) ==
   LET o == StrIdx(j) IN
   [op |-> "textcanon", i |-> j, in |-> [orig |-> o, variants |-> Tup([k \in 1..NStr(L) |-> StrIdx(k - 1)]), pk |-> At(PkSeq, j), v |-> At(VerSeq, j)],
@@ -279,7 +285,7 @@ FamilySize == [valid |-> NValid, sig |-> 504, sigq |-> 92, sigx |-> 72 * Len(Kin
 LastOf(fam) == Min(Hi, FamilySize[fam] - 1)
 GrpQ1 == <<"valid", "sesskey", "pkesk", "textcanon3", "doclenq">>
 GrpQ2 == <<"sigq", "seipd", "aeadq">>
-GrpT1 == <<"valid", "sesskey", "pkesk", "textcanon5", "seipd">>
+GrpT1 == <<"valid", "sesskey", "pkesk", "textcanon4", "seipd">>
 GrpT2 == <<"sigx">>
 GrpT3 == <<"aeadx">>
 GrpT4 == <<"doclen">>
